@@ -213,7 +213,7 @@ Definition rewards_upper_single : Prop :=
 
 (* F7: apr 1.000000000000000001, commission 10^-18, stake 31 536 000, one second: pays 1 token, the ideal is 1 - 10^-36 *)
 Definition f7_su : setup :=
-  mkSetup 60 1000000000000000001 [(1, 1)] [(1, 100000000); (2, 1000)] [1; 2] 1571797419879305533.
+  mkSetup 60 1000000000000000001 [(1, 1)] [(1, 100000000); (2, 1000)] [1; 2] 1571797419879305533 USTAKE XDEN.
 Definition f7_w0 : world := Eval vm_compute in ok_or_dummy (init_world f7_su).
 Definition f7_w1 : world := Eval vm_compute in ok_or_dummy (step f7_su f7_w0 (Delegate 1 1 31536000 true)).
 Definition f7_w2 : world := Eval vm_compute in ok_or_dummy (step f7_su f7_w1 (Advance 1000000000)).
